@@ -613,6 +613,7 @@ def check_tangent(net, rng, n, rep):
     all_lanes = Oracle(lanes)
     inters = Oracle(net.intersections)
     all_roads = Oracle(net.allRoads)
+    shoulders = Oracle(net.shoulders)
     done = 0
     for _ in range(n):
         lane = rng.choice(lanes)
@@ -666,6 +667,11 @@ def check_tangent(net, rng, n, rep):
         dr_ = all_roads.distances(pt)
         if int((dr_ <= net.tolerance + 1e-9).sum()) != 1:
             rep.skip("tangent_roadDirection_overlapping_roads")
+            continue
+        # shoulders overlap the outermost lane by a sliver; there (exact containment first) the shoulder answers
+        ds = shoulders.distances(pt)
+        if len(ds) and float(ds.min()) <= net.tolerance + 1e-9:
+            rep.skip("tangent_roadDirection_near_shoulder")
             continue
         rd = net.roadDirection[v].yaw
         rep.check(angdiff(rd, expected) <= 1e-6, "tangent.roadDirection", lane.uid,
